@@ -12,6 +12,7 @@ package simrt
 
 import (
 	"cmp"
+	"fmt"
 	"iter"
 	"slices"
 	"sort"
@@ -24,7 +25,10 @@ import (
 
 // PermFunc returns the order in which n elements (given in a canonical,
 // sorted order) are visited at an iteration site. nil means identity.
-type PermFunc func(site string, n int) []int
+// content is a hash of the canonical element keys: a decision source that
+// derives the permutation from (seed, site, content) is independent of how
+// many other iterations ran before and of which goroutine asks.
+type PermFunc func(site string, n int, content uint64) []int
 
 var permHook PermFunc
 
@@ -33,7 +37,7 @@ var permHook PermFunc
 func SetPermHook(f PermFunc) { permHook = f }
 
 //go:norace
-func perm(site string, n int) []int {
+func perm(site string, n int, content uint64) []int {
 	if n < 2 {
 		return nil
 	}
@@ -41,12 +45,36 @@ func perm(site string, n int) []int {
 	if h == nil {
 		return nil
 	}
-	p := h(site, n)
+	p := h(site, n, content)
 	if p != nil && len(p) != n {
 		panic("simrt: permutation of wrong length")
 	}
 	return p
 }
+
+func hashAny[K cmp.Ordered](keys []K) uint64 {
+	h := uint64(14695981039346656037)
+	for _, k := range keys {
+		switch v := any(k).(type) {
+		case string:
+			h = (h ^ HashString(v)) * 1099511628211
+		default:
+			h = (h ^ HashString(fmt.Sprint(v))) * 1099511628211
+		}
+	}
+	return h
+}
+
+func hashStrings(keys []string) uint64 {
+	h := uint64(14695981039346656037)
+	for _, k := range keys {
+		h = (h ^ HashString(k)) * 1099511628211
+	}
+	return h
+}
+
+// HashStrings is the content hash used for listings.
+func HashStrings(keys []string) uint64 { return hashStrings(keys) }
 
 // MapSeq replaces `range m` over a Go map with an ordered key type.
 func MapSeq[M ~map[K]V, K cmp.Ordered, V any](m M, site string) iter.Seq2[K, V] {
@@ -56,7 +84,7 @@ func MapSeq[M ~map[K]V, K cmp.Ordered, V any](m M, site string) iter.Seq2[K, V] 
 			keys = append(keys, k)
 		}
 		slices.Sort(keys)
-		p := perm(site, len(keys))
+		p := perm(site, len(keys), hashAny(keys))
 		for i := range keys {
 			k := keys[i]
 			if p != nil {
@@ -80,7 +108,7 @@ func MapKeys[M ~map[K]V, K cmp.Ordered, V any](m M, site string) []K {
 		keys = append(keys, k)
 	}
 	slices.Sort(keys)
-	p := perm(site, len(keys))
+	p := perm(site, len(keys), hashAny(keys))
 	if p == nil {
 		return keys
 	}
@@ -159,7 +187,11 @@ func RangeMessage(m protoreflect.Message, f func(protoreflect.FieldDescriptor, p
 			return
 		}
 	}
-	p := perm(site, len(free))
+	var names []string
+	for _, e := range free {
+		names = append(names, string(e.fd.FullName()))
+	}
+	p := perm(site, len(free), hashStrings(names))
 	for i := range free {
 		e := free[i]
 		if p != nil {
@@ -202,7 +234,11 @@ func RangeProtoMap(m protoreflect.Map, f func(protoreflect.MapKey, protoreflect.
 		return true
 	})
 	sort.SliceStable(ents, func(i, j int) bool { return mapKeyLess(ents[i].k, ents[j].k) })
-	p := perm(site, len(ents))
+	var names []string
+	for _, e := range ents {
+		names = append(names, e.k.String())
+	}
+	p := perm(site, len(ents), hashStrings(names))
 	for i := range ents {
 		e := ents[i]
 		if p != nil {
@@ -222,7 +258,7 @@ func RangeFiles(r *protoregistry.Files, f func(protoreflect.FileDescriptor) bool
 		return true
 	})
 	sort.SliceStable(files, func(i, j int) bool { return files[i].Path() < files[j].Path() })
-	p := perm(site, len(files))
+	p := perm(site, len(files), hashFiles(files))
 	for i := range files {
 		fd := files[i]
 		if p != nil {
@@ -242,7 +278,7 @@ func RangeFilesByPackage(r *protoregistry.Files, name protoreflect.FullName, f f
 		return true
 	})
 	sort.SliceStable(files, func(i, j int) bool { return files[i].Path() < files[j].Path() })
-	p := perm(site, len(files))
+	p := perm(site, len(files), hashFiles(files))
 	for i := range files {
 		fd := files[i]
 		if p != nil {
@@ -252,6 +288,14 @@ func RangeFilesByPackage(r *protoregistry.Files, name protoreflect.FullName, f f
 			return
 		}
 	}
+}
+
+func hashFiles(files []protoreflect.FileDescriptor) uint64 {
+	var names []string
+	for _, f := range files {
+		names = append(names, f.Path())
+	}
+	return hashStrings(names)
 }
 
 type extEnt struct {
@@ -269,7 +313,11 @@ func RangeExtensions(m proto.Message, f func(protoreflect.ExtensionType, interfa
 	sort.SliceStable(ents, func(i, j int) bool {
 		return ents[i].t.TypeDescriptor().FullName() < ents[j].t.TypeDescriptor().FullName()
 	})
-	p := perm(site, len(ents))
+	var names []string
+	for _, e := range ents {
+		names = append(names, string(e.t.TypeDescriptor().FullName()))
+	}
+	p := perm(site, len(ents), hashStrings(names))
 	for i := range ents {
 		e := ents[i]
 		if p != nil {
